@@ -16,6 +16,14 @@ EXTRA_TARGETS = ["z", "p:z", "x-b", "ba"]
 PREFIXES = ["p:", "a", "ab", "x-", "x"]
 FIXED_DEFS = ["tick", "ctr", "m1", "h1", "q"]       # every library defines these; h1 and q are never exported
 PRIVATE = ["h1", "q", "tick-n"]
+# round 2: exported macros that wrap user-supplied forms (each library defines those not visible through its imports):
+#   (wif t form)  sc-macro-transformer, user form closed with free names (it), template binds it
+#   (wifx t form) the same with free names (it x): x is a candidate name, redirected to the macro's context by design
+#   (w0 t form)   sc-macro-transformer, user form closed with no free names
+#   (erw t form)  er-macro-transformer, user form inserted bare under a renamed let
+WRAPPERS = ["wif", "wifx", "w0", "erw"]
+WRAPPER_FREE = {"wif": ["it"], "wifx": ["it", "x"], "w0": [], "erw": []}
+LEAK_SIG = "closed:sc-free-names:macro-library-binding-visible"
 MODS = ("only", "except", "rename", "prefix", "drop-prefix")
 
 
@@ -141,11 +149,24 @@ class Lib:
                      "(define (tick) (set! tick-n (+ tick-n 1)) (set! ctr (list 'v14ctr '%s tick-n)) (list 'v14tick '%s tick-n))" % (t, t)]
         if "m1" in self.defs:
             body.append("(define-syntax m1 (syntax-rules () ((_) (list 'v14mac '%s 'm1 h1))))" % t)
+        ok = "(and (pair? (cdr form)) (pair? (cddr form)))"
+        for w in ("wif", "wifx"):
+            if w in self.defs:
+                body.append("(define-syntax %s (sc-macro-transformer (lambda (form env) (if %s "
+                            "(let ((test (make-syntactic-closure env '() (cadr form))) (body (make-syntactic-closure env '(%s) (car (cddr form))))) "
+                            "`(let ((it ,test)) (if it ,body #f))) ''(v14mac %s %s)))))" % (w, ok, " ".join(WRAPPER_FREE[w]), t, w))
+        if "w0" in self.defs:
+            body.append("(define-syntax w0 (sc-macro-transformer (lambda (form env) (if %s "
+                        "(make-syntactic-closure env '() (car (cddr form))) ''(v14mac %s w0)))))" % (ok, t))
+        if "erw" in self.defs:
+            body.append("(define-syntax erw (er-macro-transformer (lambda (form rename compare) (if %s "
+                        "`(,(rename 'let) ((,(rename 'tmp) 1)) ,(car (cddr form))) `(,(rename 'quote) (v14mac %s erw))))))" % (ok, t))
         for d in self.defs:
-            if d not in ("tick", "ctr", "m1"):
+            if d not in ("tick", "ctr", "m1") and d not in WRAPPERS:
                 body.append("(define %s (list 'v14val '%s '%s))" % (d, t, d))
-        return "(define-library (%s)\n  (export %s)\n  (import (scheme base)%s)\n  (begin\n    %s))\n" % (
-            " ".join(self.name), ex, "".join(" " + iset_str(i) for i in self.imports), "\n    ".join(body))
+        chibi = " (only (chibi) sc-macro-transformer er-macro-transformer make-syntactic-closure)" if any(w in self.defs for w in WRAPPERS) else ""
+        return "(define-library (%s)\n  (export %s)\n  (import (scheme base)%s%s)\n  (begin\n    %s))\n" % (
+            " ".join(self.name), ex, chibi, "".join(" " + iset_str(i) for i in self.imports), "\n    ".join(body))
 
 
 def gen_graph(rng, gid, nlibs):
@@ -170,8 +191,14 @@ def gen_graph(rng, gid, nlibs):
             defs += ["tick", "ctr"]
         if "m1" not in visible:
             defs.append("m1")
+        for w in WRAPPERS:
+            if w not in visible:
+                defs.append(w)
         cands = [d for d in defs if d not in ("h1", "q")] + [n for n in dict.fromkeys(visible) if n not in defs and n not in PRIVATE]
-        chosen = rng.sample(cands, min(len(cands), rng.randint(2, 7)))
+        chosen = rng.sample(cands, min(len(cands), rng.randint(3, 10)))
+        sc = [c for c in cands if c in ("wif", "wifx")]
+        if sc and not any(c in sc for c in chosen) and rng.random() < 0.6:
+            chosen.append(rng.choice(sc))
         exports, used = [], set()
         for m in chosen:
             e = m
@@ -187,6 +214,65 @@ def gen_graph(rng, gid, nlibs):
         libs.append(lib)
         world[name] = exports
     return libs, world
+
+
+def py_origin(libs, world, lib, m, fuel=8):
+    """generator-side guess of the definition behind internal name m of library lib (shapes inputs only)"""
+    L = next((l for l in libs if l.name == lib), None)
+    if L is None or fuel == 0:
+        return None
+    if m in L.defs:
+        return (lib, m)
+    for i in L.imports:
+        for n, mm in (py_denote(world, i) or []):
+            if n == m:
+                return py_origin(libs, world, iset_lib(i), mm, fuel - 1)
+    return None
+
+
+def gen_closed_case(rng, libs, world):
+    """a program whose import sets differ from the macro library's: one import set delivers wrapper macros of library M
+    (plain, only, prefixed or renamed), 1-2 further import sets over any libraries deliver the names the user code refers to"""
+    havers = []
+    for L in libs:
+        ws = [(e, m) for e, m in L.exports if (py_origin(libs, world, L.name, m) or (None, None))[1] in WRAPPERS]
+        if ws:
+            havers.append((L, ws))
+    if not havers:
+        return None
+    M, ws = rng.choice(havers)
+    pick = rng.sample(ws, min(len(ws), rng.randint(1, 3)))
+    r = rng.random()
+    im = ("lib", M.name) if r < 0.3 else ("only", ("lib", M.name), [e for e, _ in pick])
+    r = rng.random()
+    if r < 0.2:
+        im = ("prefix", im, rng.choice(PREFIXES))
+    elif r < 0.4:
+        vis = [n for n, _ in py_denote(world, im)]
+        a = rng.choice([e for e, _ in pick])
+        im = ("rename", im, [(a, rng.choice([t for t in NAMES + EXTRA_TARGETS if t not in vis] or ["zz9"]))])
+    isets = [gen_iset(rng, world, rng.choice(libs).name, rng.choice([0, 0, 1, 2, 3]), err=0.0) for _ in range(rng.choice([1, 1, 2]))]
+    isets.insert(rng.randrange(len(isets) + 1), im)
+    macs = []
+    for i in isets:
+        for n, m in (py_denote(world, i) or []):
+            o = py_origin(libs, world, iset_lib(i), m)
+            if o and o[1] in WRAPPERS and n not in macs:
+                macs.append(n)
+    if not macs:
+        return None
+    rng.shuffle(macs)
+    stacks = [[m] for m in macs[:4]]
+    for _ in range(rng.choice([1, 2, 2])):
+        stacks.append([rng.choice(macs) for _ in range(rng.choice([2, 2, 3]))])
+    return dict(kind="envsc", isets=isets, names=_candidates(rng, world, isets), stacks=stacks)
+
+
+def template(stack):
+    t = "<>"
+    for m in reversed(stack):
+        t = "(%s 1 %s)" % (sym(m), t)
+    return t
 
 
 def tiny_graph(gid):
@@ -327,7 +413,7 @@ MALFORMED = ["foo", "()", "(only)", "(except)", "(prefix {L})", "(drop-prefix {L
 def run(ctx):
     rng = ctx.rng
     thorough = ctx.thorough
-    n_graphs, n_env, n_res = (36, 26, 14) if not thorough else (400, 60, 30)
+    n_graphs, n_env, n_res, n_sc = (36, 26, 14, 6) if not thorough else (400, 60, 30, 16)
     ctx.cov["rule"] = ("outer: generated library graphs (1-6 libraries; exports with (rename a b) incl. swaps; libraries importing and re-exporting "
                        "through their own import sets; every body prints once and owns a counter; a macro expanding into a private helper) are written "
                        "to a scratch module directory; per graph one chibi process builds environments from import sets of nesting depth 0-4 "
@@ -385,6 +471,10 @@ def run(ctx):
                 if rng.random() < 0.2:
                     isets.append(gen_iset(rng, world, rng.choice(libs).name, rng.choice([0, 1, 2]), err=0.0))
                 cases.append(dict(kind="env", isets=isets, names=_candidates(rng, world, isets)))
+            for c in range(n_sc):
+                cc = gen_closed_case(rng, libs, world)
+                if cc:
+                    cases.append(cc)
             for c in range(n_res):
                 if rng.random() < 0.7:
                     i = gen_iset(rng, world, rng.choice(libs).name, rng.choice([0, 1, 2, 3, 4]), err=0.3)
@@ -420,8 +510,12 @@ def run(ctx):
             for q in gr["lreqs"]:
                 cases.append(dict(kind="load", lib=q))
             # one top-level (import ...) per process, last
-            i = gen_iset(rng, world, rng.choice(libs).name, rng.choice([1, 2, 3]), err=0.0)
-            cases.append(dict(kind="top", isets=[i], names=_candidates(rng, world, [i])))
+            cc = gen_closed_case(rng, libs, world) if rng.random() < 0.7 else None
+            if cc:
+                cases.append(dict(kind="top", isets=cc["isets"], names=cc["names"], stacks=cc["stacks"]))
+            else:
+                i = gen_iset(rng, world, rng.choice(libs).name, rng.choice([1, 2, 3]), err=0.0)
+                cases.append(dict(kind="top", isets=[i], names=_candidates(rng, world, [i]), stacks=[]))
 
     # ------------------------------------------------------------------ oracle: one batch per model
     spec_req, gen_req = [], []
@@ -440,9 +534,14 @@ def run(ctx):
                 c["spec_ix"] = len(spec_req)
                 spec_req.append("frames (%s)" % " ".join(iset_str(i) for i in c["isets"]))
                 continue
-            if c["kind"] in ("env", "top"):
+            if c["kind"] in ("env", "top", "envsc"):
                 c["spec_ix"] = len(spec_req)
                 spec_req.append("origin (%s) (%s)" % (" ".join(iset_str(i) for i in c["isets"]), " ".join(sym(n) for n in c["names"])))
+                c["closed_ix"] = []
+                for st in c.get("stacks", []):
+                    c["closed_ix"].append(len(spec_req))
+                    spec_req.append("closed (%s) (%s) (%s)" % (" ".join(iset_str(i) for i in c["isets"]), " ".join("(mac %s)" % sym(m) for m in st),
+                                                               " ".join(sym(n) for n in c["names"])))
             elif c["kind"] == "resolve":
                 c["gen_ix"] = len(gen_req)
                 gen_req.append("resolve " + c["text"])
@@ -454,6 +553,17 @@ def run(ctx):
                 gen_req.append("%s %s %s" % (c["kind"], sym(c["a"]), sym(c["b"])))
     spec_out = ctx.run_model(spec_exe, spec_req)
     gen_out = ctx.run_model(gen_exe, gen_req) if gen_exe else None
+    for gr in graphs:
+        for c in gr["cases"]:
+            if c.get("stacks") is not None:
+                live = []
+                for st, ix in zip(c["stacks"], c["closed_ix"]):
+                    toks = spec_out[ix].split(" ")
+                    if toks and toks[0].startswith("W:") and len(toks) == 1 + len(c["names"]):
+                        live.append(dict(stack=st, kinds=toks[0][2:].split(","), model=toks[1:]))
+                    elif "NOTMACRO" not in spec_out[ix] and "E" not in spec_out[c["spec_ix"]].split(" "):
+                        ctx.broken("spec-driver", "closed answered %r" % spec_out[ix][:200])
+                c["live"] = live
     if gen_exe is None:
         ctx.note("inner correspondence skipped: the translated code could not be regenerated / extracted")
 
@@ -468,6 +578,9 @@ def run(ctx):
                     continue
                 if c["kind"] == "env":
                     fh.write("(env %d (%s) (%s))\n" % (n, " ".join(iset_str(i) for i in c["isets"]), " ".join(sym(x) for x in c["names"])))
+                elif c["kind"] == "envsc":
+                    fh.write("(envsc %d (%s) (%s) (%s))\n" % (n, " ".join(iset_str(i) for i in c["isets"]), " ".join(sym(x) for x in c["names"]),
+                                                              " ".join(template(l["stack"]) for l in c["live"])))
                 elif c["kind"] == "frames":
                     fh.write("(frames %d (%s))\n" % (n, " ".join(iset_str(i) for i in c["isets"])))
                 elif c["kind"] == "load":
@@ -506,6 +619,9 @@ def run(ctx):
             if c["kind"] == "frames":
                 _judge_frames(ctx, d, moddir, gr, c, got, spec_out[c["spec_ix"]])
                 continue
+            if c["kind"] == "envsc":
+                _judge_closed(ctx, d, moddir, gr, c, got, spec_out[c["spec_ix"]].split(" "), libs, ticks, needed)
+                continue
             if c["kind"] in ("env", "top"):
                 _judge_outer(ctx, d, moddir, gr, c, got, spec_out[c["spec_ix"]].split(" "), libs, ticks, needed)
                 if sampled < 4 and iset_depth(c["isets"][0]) >= 2:
@@ -526,8 +642,10 @@ def run(ctx):
                 continue
             prog = os.path.join(moddir, "top_%s_%d.scm" % (gr["gid"], n))
             probe = open(os.path.join(ROOT, "harness", "c14_driver.scm")).read().split(";;; BEGIN PROBE")[1].split(";;; END PROBE")[0]
-            open(prog, "w").write("(import (scheme base) (scheme write) (scheme eval) (scheme repl) %s)\n%s\n(c14-out %d (c14-probe (interaction-environment) '(%s)))\n(write-string \"DONE\\n\")\n" % (
-                " ".join(iset_str(i) for i in c["isets"]), probe, n, " ".join(sym(x) for x in c["names"])))
+            open(prog, "w").write("(import (scheme base) (scheme write) (scheme eval) (scheme repl) %s)\n%s\n(c14-out %d (c14-probe (interaction-environment) '(%s)))\n"
+                                  "(c14-out %d (c14-probe-closed (interaction-environment) '(%s) '(%s)))\n(write-string \"DONE\\n\")\n" % (
+                " ".join(iset_str(i) for i in c["isets"]), probe, n, " ".join(sym(x) for x in c["names"]),
+                n, " ".join(template(l["stack"]) for l in c.get("live", [])), " ".join(sym(x) for x in c["names"])))
             r = B.run_chibi(d, [prog], timeout=60, extra_env={"CHIBI_MODULE_PATH": os.path.join(d, "lib") + ":" + moddir})
             tb = [l[5:].strip() for l in r.stdout.split("\n") if l.startswith("BODY ")]
             line = [l for l in r.stdout.split("\n") if l.startswith("CASE ")]
@@ -541,6 +659,17 @@ def run(ctx):
                 continue
             tticks, tneeded = {t: 0 for t in libs}, set()
             _judge_outer(ctx, d, moddir, gr, c, got, spec_out[c["spec_ix"]].split(" "), libs, tticks, tneeded)
+            if len(line) > 1 and c.get("live"):
+                try:
+                    got2 = norm(parse_datum(line[1].split(" ", 2)[2])[0])
+                except Exception as e:
+                    ctx.broken("correspondence:unreadable-output", "top program %s printed %r (%s)" % (prog, line[1][:200], e))
+                    got2 = None
+                if got2 is not None:
+                    _judge_closed(ctx, d, moddir, gr, c, got2, spec_out[c["spec_ix"]].split(" "), libs, tticks, tneeded)
+            elif c.get("live") and line:
+                ctx.violation("driver-died", input=open(prog).read()[-400:], observed="rc=%s %s" % (r.returncode, (r.stderr or "")[-300:]),
+                              expected="the program runs to its end", replay="chibi-scheme %s (module dir %s)" % (prog, moddir))
             _check_bodies(ctx, d, moddir, gr, libs, tb, tneeded, prog, top=True)
 
 
@@ -601,13 +730,13 @@ def _load_corpus():
     return out
 
 
-def _candidates(rng, world, isets, limit=30):
+def _candidates(rng, world, isets, limit=34):
     vis = []
     for i in isets:
         for n, _ in (py_denote(world, i) or []):
             if n not in vis:
                 vis.append(n)
-    extra = list(NAMES) + ["tick", "ctr", "m1"] + PRIVATE + [""]
+    extra = list(NAMES) + ["tick", "ctr", "m1"] + PRIVATE + [""] + WRAPPERS
     for i in isets:
         j = i
         while j[0] != "lib":
@@ -637,6 +766,8 @@ def _expect_value(libs, ticks, lib, m):
         return ("v14ctr", lib, ticks[lib])
     if m == "m1":
         return ("v14mac", lib, "m1", ("v14val", lib, "h1"))
+    if m in WRAPPERS:
+        return ("v14mac", lib, m)
     return ("v14val", lib, m)
 
 
@@ -708,6 +839,112 @@ def _judge_outer(ctx, d, moddir, gr, c, got, spec, libs, ticks, needed):
         ctx.violation(sigbase + cls, input=text, name=name, graph=[l.sld() for l in gr["libs"]],
                       expected="%s (the definition of %s in library %s%s)" % (exp, m, lib, "; this library's tick has run %d time(s) in this process" % exp[2] if exp[0] == "v14ctr" else ""),
                       observed=repr(g), replay=replay_cmd(d, moddir, isets, name, top))
+
+
+_leak_registered = None
+
+
+def leak_registered():
+    """is the standing leak recorded in known_findings.json under LEAK_SIG?  (if not, it is reported as a note only)"""
+    global _leak_registered
+    if _leak_registered is None:
+        _leak_registered = any(f.get("sig") == LEAK_SIG and f.get("property") == "C14" for f in core.load_findings().get("findings", []))
+    return _leak_registered
+
+
+def replay_closed(d, moddir, isets, tmpl, name, top=False):
+    form = tmpl.replace("<>", sym(name))
+    prog = "(import (scheme base) (scheme write) (scheme eval)) (write (eval '%s (environment %s)))" % (form, " ".join("'" + iset_str(i) for i in isets))
+    if top:
+        prog = "(import (scheme base) (scheme write) %s) (write %s)" % (" ".join(iset_str(i) for i in isets), form)
+    return "echo \"%s\" > /var/tmp/c14-replay.scm; LD_LIBRARY_PATH=%s CHIBI_IGNORE_SYSTEM_PATH=1 CHIBI_MODULE_PATH=%s:%s %s/chibi-scheme /var/tmp/c14-replay.scm" % (
+        prog.replace('"', '\\"'), d, os.path.join(d, "lib"), moddir, d)
+
+
+def _judge_closed(ctx, d, moddir, gr, c, got, spec, libs, ticks, needed):
+    """every name probed in the user-code position of exported sc/er macros.  Oracle: the SPEC origin of the name in the PROGRAM
+    (user code closed by a macro of another library refers to the program's own imports, exactly as outside the macro);
+    the extracted SynClo.closed_probe (model of the code, standing leak included) classifies what is seen for unbound names."""
+    isets, names, live = c["isets"], c["names"], c.get("live", [])
+    top = c["kind"] == "top"
+    text = " ".join(iset_str(i) for i in isets)
+    shape = tuple(l.graph_sexp().replace(gr["gid"], "G") for l in gr["libs"])
+    graph = [l.sld() for l in gr["libs"]]
+    import_err = isinstance(got, tuple) and len(got) >= 1 and got[0] == "IMPORT-ERROR"
+    if "E" in spec or import_err:
+        if ("E" in spec) != import_err and not top:
+            ctx.violation("import:closed-case:" + ("import-accepted" if "E" in spec else "import-rejected"), input=text, graph=graph,
+                          expected="import error" if "E" in spec else "import succeeds", observed=repr(got)[:300],
+                          replay=replay_cmd(d, moddir, isets, names[0], top))
+        return
+    if not isinstance(got, tuple) or len(got) != len(live) or any(not isinstance(g, tuple) or len(g) != len(names) for g in got):
+        ctx.broken("correspondence:closed", "driver answered %r for %d templates x %d names" % (repr(got)[:300], len(live), len(names)))
+        return
+    for l, res in zip(live, got):
+        tmpl = template(l["stack"])
+        free = set(f for k in l["kinds"] for f in WRAPPER_FREE[k])
+        kinds = "+".join(l["kinds"])
+        sigbase = "closed:%s:" % l["kinds"][0]
+        ctx.cov["traces_validated_against_impl"] += 1
+        for name, s, mtok, g in zip(names, spec, l["model"], res):
+            ctx.count(1, key=("closed", shape, text.replace(gr["gid"], "G"), tuple(l["kinds"]), tmpl, name), nontrivial=(s != "A"))
+            pre = dict(ticks)
+            ticked = _observe_tick(ticks, g)
+            if s == "A":
+                continue
+            if mtok.startswith("O:"):
+                _, mlib, mm = mtok.split(":", 2)
+                mval = _expect_value(libs, pre, mlib, mm) if mlib in libs else None
+            else:
+                mval = "unbound"
+            if name in free:
+                # a declared free name is looked up in the macro's context (the documented meaning of free names): no SPEC verdict,
+                # the model of the code must predict it
+                if mtok != "L" and g != mval:
+                    ctx.broken("correspondence:closed-free-name", "free name %s inside %s with imports %s: model %s, chibi %r" % (name, tmpl, text, mtok, g))
+                continue
+            if s == "U":
+                if g == "unbound":
+                    if mtok != "U":
+                        ctx.broken("correspondence:closed-leak-model", "%s inside %s with imports %s: the model of sexp_extend_synclo_env predicts %s, chibi says unbound" % (name, tmpl, text, mtok))
+                    continue
+                if mtok.startswith("O:") and g == mval:
+                    # the standing leak (F-C14-2): exactly the binding the macro library's environment has under that name
+                    ctx.cov["standing_leak_cases"] = ctx.cov.get("standing_leak_cases", 0) + 1
+                    if leak_registered():
+                        ctx.violation(LEAK_SIG, input="%s ; program imports: %s" % (tmpl.replace("<>", sym(name)), text), name=name, graph=graph,
+                                      expected="unbound (the program does not import %s)" % name, observed=repr(g),
+                                      replay=replay_closed(d, moddir, isets, tmpl, name, top))
+                    continue
+                ctx.violation(sigbase + "unexpectedly-bound", input="%s ; program imports: %s" % (tmpl.replace("<>", sym(name)), text), name=name, graph=graph,
+                              wrappers=kinds, expected="unbound (not in the program's import sets)%s" % ("" if mtok == "U" else "; the known leak would give %s" % mtok),
+                              observed=repr(g), replay=replay_closed(d, moddir, isets, tmpl, name, top))
+                continue
+            _, lib, m = s.split(":", 2)
+            if lib not in libs:
+                ctx.broken("spec-driver", "origin names an unknown library: %s" % s)
+                continue
+            if mtok != s:
+                ctx.broken("model:closed-vs-spec", "%s inside %s with imports %s: SynClo.closed_probe says %s, Spec.program_origin %s (theorem wrapped_lookup_bound)" % (name, tmpl, text, mtok, s))
+            exp = _expect_value(libs, pre, lib, m)
+            needed.add(lib)
+            if g == exp:
+                continue
+            if g == "unbound":
+                cls = "unbound"
+            elif isinstance(g, tuple) and len(g) >= 3 and g[0] == exp[0] and g[1] == exp[1] and g[0] in ("v14tick", "v14ctr"):
+                cls = "state-not-shared"
+                if ticked:
+                    ticks[lib] = g[2]
+            else:
+                cls = "wrong-binding"
+            ctx.violation(sigbase + cls, input="%s ; program imports: %s" % (tmpl.replace("<>", sym(name)), text), name=name, graph=graph, wrappers=kinds,
+                          expected="%s (the program's own import: the definition of %s in library %s, exactly as outside the macro)" % (exp, m, lib),
+                          observed=repr(g), replay=replay_closed(d, moddir, isets, tmpl, name, top))
+    if live and not getattr(ctx, "_c14_closed_sampled", False) and len(live[0]["stack"]) >= 1:
+        ctx._c14_closed_sampled = True
+        ctx.sample(dict(kind="closed", imports=[iset_str(i) for i in isets], template=template(live[0]["stack"]), names=names[:8],
+                        spec=spec[:8], model=live[0]["model"][:8], impl=repr(got[0][:8])))
 
 
 def _judge_inner(ctx, d, moddir, gr, c, got, model, spec):
